@@ -643,6 +643,119 @@ theorem C20_plot_one_line_per_requested_measure (t : Table) (spec : MeasureSpec)
       rw [hx, hnone] at this
       cases this
 
+theorem plotLines_labels (t : Table) : ∀ (rs : List (String × Option String × Option String)) (ls : List PlotLine),
+    plotLines t rs = .ok ls →
+    ls.map (fun l => (l.label, l.color)) = rs.map (fun r => (r.2.1, r.2.2)) ∧
+    rs.map (fun r => t.lookup r.1) = ls.map (fun l => some l.ys)
+  | [], ls, h => by
+    simp only [plotLines] at h
+    injection h with h
+    subst h
+    exact ⟨rfl, rfl⟩
+  | (m, label, color) :: rest, ls, h => by
+    simp only [plotLines] at h
+    cases hl : t.lookup m with
+    | none => rw [hl] at h; cases h
+    | some ys =>
+      rw [hl] at h
+      simp only at h
+      cases hr : plotLines t rest with
+      | error e => rw [hr] at h; cases h
+      | ok ls' =>
+        rw [hr] at h
+        injection h with h
+        subst h
+        obtain ⟨i1, i2⟩ := plotLines_labels t rest ls' hr
+        exact ⟨by simp only [List.map_cons, i1], by simp only [List.map_cons, i2, hl]⟩
+
+/-- How the lines of a measure plot are labelled and coloured, form by form: a string is plotted without label and colour
+    (the y label names it), a dict entry `m: colour` as the line of `m`'s values labelled `m` in that colour, a list /
+    tuple entry labelled with the measure in the next colour of the cycle; anything else plots nothing. -/
+theorem C20_plot_lines_labelled_and_coloured (t : Table) (spec : MeasureSpec) (pl : Plot) (h : plotMeasure t spec = .ok pl) :
+    (∀ m, spec = .str m → pl.lines.map (fun l => (l.label, l.color)) = [(none, none)] ∧ [t.lookup m] = pl.lines.map (fun l => some l.ys)) ∧
+    (∀ ms, spec = .dict ms → pl.lines.map (fun l => (l.label, l.color)) = ms.map (fun mc => (some mc.1, some mc.2)) ∧
+      ms.map (fun mc => t.lookup mc.1) = pl.lines.map (fun l => some l.ys)) ∧
+    (∀ ms, spec = .list ms ∨ spec = .tuple ms → pl.lines.map (fun l => (l.label, l.color)) = ms.map (fun m => (some m, none)) ∧
+      ms.map (fun m => t.lookup m) = pl.lines.map (fun l => some l.ys)) ∧
+    (spec = .other → pl.lines = []) := by
+  unfold plotMeasure at h
+  cases hr : plotLines t spec.requests with
+  | error e => rw [hr] at h; cases h
+  | ok ls =>
+    rw [hr] at h
+    injection h with h
+    subst h
+    obtain ⟨h1, h2⟩ := plotLines_labels t _ ls hr
+    refine ⟨fun m hs => ?_, fun ms hs => ?_, fun ms hs => ?_, fun hs => ?_⟩
+    · subst hs
+      exact ⟨h1, h2⟩
+    · subst hs
+      simp only [MeasureSpec.requests, List.map_map] at h1 h2
+      exact ⟨h1, h2⟩
+    · rcases hs with hs | hs <;> subst hs <;> simp only [MeasureSpec.requests, List.map_map] at h1 h2 <;> exact ⟨h1, h2⟩
+    · subst hs
+      simp only [MeasureSpec.requests, List.map_nil] at h1
+      simpa using h1
+
+theorem relocate_not_value (ly : Layout) : ∀ es, relocate ly es ≠ .error .value
+  | [] => by simp [relocate]
+  | e :: es => by
+    have ih := relocate_not_value ly es
+    unfold relocate
+    cases ly.lookup e.loc.x with
+    | none => simp
+    | some pos =>
+      simp only
+      cases hr : relocate ly es with
+      | error err =>
+        rw [hr] at ih
+        simp only
+        intro h
+        injection h with h
+        subst h
+        exact ih rfl
+      | ok es' => simp
+
+/-- What the plot and network entry points refuse: `make_plot_component` takes the backend "matplotlib", answers
+    NotImplementedError for "altair" and ValueError for every other name; `draw_network` with a caller's layout raises
+    ValueError exactly when the layout is empty (whatever the agents and their portrayals are). -/
+theorem C20_plot_backend_and_empty_layout (backend : String) (sp : Space) (heap : Heap) (p : Portrayal) (ly : Layout) :
+    (plotBackend backend = .ok () ↔ backend = "matplotlib") ∧
+    (plotBackend backend = .error .notImplemented ↔ backend = "altair") ∧
+    (plotBackend backend = .error .value ↔ backend ≠ "matplotlib" ∧ backend ≠ "altair") ∧
+    (drawNetwork sp heap p ly = .error .value ↔ ly = []) := by
+  refine ⟨?_, ?_, ?_, ?_⟩
+  · unfold plotBackend
+    by_cases h1 : backend = "matplotlib"
+    · simp [h1]
+    · by_cases h2 : backend = "altair" <;> simp [h1, h2]
+  · unfold plotBackend
+    by_cases h1 : backend = "matplotlib"
+    · subst h1; decide
+    · by_cases h2 : backend = "altair" <;> simp [h1, h2]
+  · unfold plotBackend
+    by_cases h1 : backend = "matplotlib"
+    · simp [h1]
+    · by_cases h2 : backend = "altair" <;> simp [h1, h2]
+  · unfold drawNetwork
+    cases ly with
+    | nil => simp
+    | cons a rest =>
+      simp only [List.isEmpty_cons, Bool.false_eq_true, if_false]
+      cases collectAgentData drawDefaults heap p (spaceAgents sp) with
+      | none => simp
+      | some es =>
+        simp only
+        cases hr : relocate (a :: rest) es with
+        | error err =>
+          have := relocate_not_value (a :: rest) es
+          rw [hr] at this
+          simp only
+          constructor
+          · intro h; injection h with h; subst h; exact absurd rfl this
+          · intro h; cases h
+        | ok es' => simp
+
 /-! ## Altair -/
 
 /-- `_draw_grid` hands Altair one row per agent currently in the space (for the space classes Altair
@@ -925,7 +1038,7 @@ theorem C20_draw_space_with_layers {sp : Space} (h : Reachable sp) (hr : drawRai
     a colour nor a colormap, a hex layer over an inverted range (ValueError, raised by `Normalize`). -/
 theorem C20_layers_refused (fam : Family) (layers : List (String × Layer)) (name : String) (L : Layer) (pt : LayerPortrayal) :
     ((fam.isOrthogonal || fam.isHex) = false → ∀ ports, drawLayers fam layers ports = .error .attribute) ∧
-    (pt.mode = .neither → ∃ e, drawLayer fam name L pt = .error e) ∧
+    (pt.mode = .neither → drawLayer fam name L pt = .error .value) ∧
     (fam.isHex = true → ∀ vmin vmax, layerRange L pt = some (vmin, vmax) → vmax < vmin →
       drawLayer fam name L pt = .error .value) := by
   refine ⟨fun h ports => by unfold drawLayers; rw [h]; rfl, fun hm => ?_, fun hf vmin vmax hr hlt => ?_⟩
